@@ -11,17 +11,20 @@ target('c01tc', ['harness/c01_types.cpp'], flags=['-DC01_VT=1'])
 target('c01tb', ['harness/c01_types.cpp'], flags=['-DC01_VT=2'])
 target('c01tf', ['harness/c01_types.cpp'], flags=['-DC01_VT=3'])
 
+# Watchdogs: every solve in these harnesses is bounded by maxiter; a call that never returns violates the iteration-bound /
+# reuse clauses, so a hang that reproduces on the retry is attributed to the open case and reported (key hang:<sub>).
+# Quick jobs take < 60 s each on a loaded machine: the quick watchdogs are >= 30x that.
 def c01_jobs(tier):
     q = tier == 'quick'
-    js = [job('truthful-plain', 'c01', 'plain', threads=1, shards=12 if q else 16, timeout=7200),
-          job('truthful-asan',  'c01', 'asan',  threads=1, shards=8 if q else 16, timeout=14400, args=['--stride=5'] if q else ['--stride=7']),      # strides are coprime with the shard counts (cases are sharded by idx % shards)
-          job('types-complex',  'c01tc', 'plain', threads=1, shards=2 if q else 4, timeout=7200),
-          job('types-block',    'c01tb', 'plain', threads=1, shards=2 if q else 4, timeout=7200),
-          job('types-float',    'c01tf', 'plain', threads=1, shards=2 if q else 4, timeout=7200)]
+    js = [job('truthful-plain', 'c01', 'plain', threads=1, shards=12 if q else 16, timeout=1800 if q else 7200, hang_is_violation=True),
+          job('truthful-asan',  'c01', 'asan',  threads=1, shards=8 if q else 16, timeout=2700 if q else 14400, hang_is_violation=True, args=['--stride=5'] if q else ['--stride=7']),      # strides are coprime with the shard counts (cases are sharded by idx % shards)
+          job('types-complex',  'c01tc', 'plain', threads=1, shards=2 if q else 4, timeout=1800 if q else 7200, hang_is_violation=True),
+          job('types-block',    'c01tb', 'plain', threads=1, shards=2 if q else 4, timeout=1800 if q else 7200, hang_is_violation=True),
+          job('types-float',    'c01tf', 'plain', threads=1, shards=2 if q else 4, timeout=1800 if q else 7200, hang_is_violation=True)]
     if not q:
         # 4 threads: the parallel code paths (level-scheduled ILU solves, parallel Gauss-Seidel, reductions) under the same oracle.  libgomp with the passive wait
         # policy is slow on these small systems (measured 25 s per case on the shared machine), hence every 23rd case only.
-        js.append(job('truthful-plain-t4', 'c01', 'plain', threads=4, shards=4, timeout=14400, args=['--sub', 'truthful', '--stride=23']))
+        js.append(job('truthful-plain-t4', 'c01', 'plain', threads=4, shards=4, timeout=2700 if q else 14400, hang_is_violation=True, args=['--sub', 'truthful', '--stride=23']))
     return js
 
 # Oracle notes (rule 4 of the harness guide; details next to vf::check_truthful in include/vf/krylov.hpp):
